@@ -691,3 +691,21 @@ T('c16i_unquote_loads_bytes', ['C16'],
   (CK, _B64D + _LOADS, "            value = cls.serialization_method.loads(base64.b64decode(value))\n"))
 T('c16i_unquote_str_call', ['C16'],
   (CK, _B64D + _LOADS, "            text = str(base64.b64decode(value), 'utf8')\n            value = cls.serialization_method.loads(text)\n"))
+
+# ---------------------------------------------------------------- R16.d: set_expires records the application's expiry where the dependency looks for it
+_SETEXP = "        self['_expires'] = epoch_time\n"
+_SETEXP_NOW = "        if epoch_time == NOW:\n            epoch_time = 123456  # a day and a half after the epoch (long ago)\n"
+B('c16i_set_expires_other_key', ['C16'], 'R16.d', (CK, _SETEXP, "        self['expires'] = epoch_time\n"))
+B('c16i_set_expires_attribute_not_item', ['C16'], 'R16.d', (CK, _SETEXP, "        self._expires = epoch_time\n"))
+B('c16i_set_expires_now_returns_early', ['C16'], 'R16.d',
+  (CK, _SETEXP_NOW + _SETEXP, "        if epoch_time == NOW:\n            return  # the browser forgets a session cookie by itself\n" + _SETEXP))
+B('c16i_set_expires_keeps_existing', ['C16'], 'R16.d', (CK, _SETEXP, "        self.setdefault('_expires', epoch_time)\n"))
+B('c16i_set_expires_only_if_absent', ['C16'], 'R16.d',
+  (CK, _SETEXP, "        if '_expires' not in self:\n            self['_expires'] = epoch_time\n"))
+B('c16i_set_expires_ignores_argument', ['C16'], 'R16.d', (CK, _SETEXP_NOW + _SETEXP, "        self['_expires'] = 123456\n"))
+T('c16i_set_expires_update', ['C16'], (CK, _SETEXP, "        self.update(_expires=epoch_time)\n"))
+T('c16i_set_expires_two_branches', ['C16'],
+  (CK, 'NOW = \'now\'\n', 'NOW = \'now\'\n_EXPIRES = \'_expires\'\n_LONG_AGO = 123456\n'),
+  (CK, _SETEXP_NOW + _SETEXP, "        if epoch_time == NOW:\n            self[_EXPIRES] = _LONG_AGO\n        else:\n            self[_EXPIRES] = epoch_time\n"))
+T('c16i_set_expires_conditional_expression', ['C16'],
+  (CK, _SETEXP_NOW + _SETEXP, "        self['_expires'] = 123456 if epoch_time == NOW else epoch_time\n"))
